@@ -244,7 +244,12 @@ def c01 (ms : M) (e : Event) : List String × Int × Option Int :=
          -- (buffered messages drained at a disconnect inside this event consume their own numbers: excluded)
          let buffered := match e.op with | .pop => ms.inbox.drop 1 | _ => ms.inbox
          -- (kept early messages delivered from the stash inside this event consume their own numbers: excluded)
-         if v.clean && n != ms.T && firstIsInc && !refused && buffered.isEmpty && ms.prev.stash.isEmpty then ["C01.expected_advanced_without_its_message"] else []
+         (if v.clean && n != ms.T && firstIsInc && !refused && buffered.isEmpty && ms.prev.stash.isEmpty then ["C01.expected_advanced_without_its_message"] else [])
+         -- a message numbered BELOW the expected number (a duplicate) never consumes the expected number, whatever the engine
+         -- answers (nothing, a Reject, a Logout): Logon / SequenceReset / Logout / ResendRequest are processed whatever their
+         -- number (a malformed ResendRequest is rejected and consumed like any rejected message): excluded
+         ++ (if v.clean && n < ms.T && firstIsInc && buffered.isEmpty && ms.prev.stash.isEmpty
+                && !(["A", "4", "5", "2"].contains (kindOf m)) then ["C01.expected_advanced_by_a_duplicate"] else [])
        | none => [])
     | none => []
   let bad := s.bad ++ (if s.expectInc then ["C01.delivered_without_advance"] else [])
@@ -302,6 +307,28 @@ def c04 (ms : M) (e : Event) : List String :=
          | none => [])
       | none => []
   let badCount := if rrs.length > 1 then ["C04.more_than_one_request"] else []
+  -- the message that reveals the gap is AHEAD of the expected number: it is kept (or, a ResendRequest / SequenceReset, acted
+  -- upon), never consumed — once our request has left, the expected number stays where the gap begins
+  let badConsumed : List String :=
+    if !recBefore && (prev.st == "InSession" || prev.st == "Pending:InSession") && !rrs.isEmpty then
+      let afterRR := ((dropOldWires prev.q e.items).dropWhile fun i => match i with | .wire "2" _ _ => false | _ => true).drop 1
+      if afterRR.any (fun i => i == .store ["incT"]) then ["C04.expected_advanced_after_gap_detected"] else []
+    else []
+  -- the same for the peer's own ResendRequest arriving ahead of the expected number (crossing recoveries), in every logged-on
+  -- state: it is answered, the gap it reveals is (or stays) requested, and the expected number does not move
+  let badConsumed := badConsumed ++ (match e.op, inb with
+    | .msgIn _, some m =>
+      let v := viewOf cfg m (plantOf ms e)
+      (match v.seq with
+       | some n =>
+         -- (a malformed request is rejected and consumed like any rejected message: only well-formed ones are judged)
+         if kindOf m == "2" && n > ms.T && stLoggedOn prev.st && prev.stash.isEmpty && ms.inbox.isEmpty
+            && ((fget m.f 7).bind numeric?).isSome && ((fget m.f 16).bind numeric?).isSome
+            && v.beginOK && v.sndOK && v.tgtOK && v.noEmpty && v.validOK && !v.possDupGarbled && !v.verdict
+            && e.items.any (fun i => i == .store ["incT"]) && !(e.items.any fun i => i == .store ["reset"])
+         then ["C04.expected_advanced_by_early_resend_request"] else []
+       | none => [])
+    | _, _ => [])
   -- (b) the early message is kept
   let badKeep : List String := match inb with
     | some m =>
@@ -327,7 +354,7 @@ def c04 (ms : M) (e : Event) : List String :=
   let badSecond := match ms.gapEnd with
     | some g => if cfg.chunk == 0 && !rrs.isEmpty && ms.T ≤ g && stLoggedOn prev.st && !recBefore then ["C04.second_request_during_recovery"] else []
     | none => []
-  badReq ++ badCount ++ badKeep ++ badLeft ++ badSecond
+  badReq ++ badCount ++ badConsumed ++ badKeep ++ badLeft ++ badSecond
 
 /-! ## C06: the gate in front of the application, the mandated reactions, the shape of Rejects -/
 
@@ -829,6 +856,10 @@ def monitorStep (ms : M) (e : Event) : M × List String :=
     let obsT := e.items.filterMap toObs
     let g2' := obsT.foldl (Qfx.Sess.C02.g2Step ms.cfg.persist) ms.g2
     let b02 := if ms.g2.ok && !g2'.ok then ["C02.theorem_monitor_rejects{layer=sequential}"] else []
+    -- the bytes stored under a number stay the bytes that were sent under it (the harness keeps its own copy of every save
+    -- and re-reads the store after every event)
+    let b02 := b02 ++ (if e.items.any (fun i => match i with | .store ("mutated" :: _) => true | _ => false)
+                       then ["C02.stored_bytes_changed_after_save"] else [])
     let g8a := match e.op with
       | .connect => if e.after.status == "ok" then Qfx.Sess.c8Step ms.g8 .connected else ms.g8
       | _ => ms.g8
